@@ -19,7 +19,7 @@ func Gen(r *vk.Run, n int) error {
 		return err
 	}
 	g.genProto(100 + n/40)
-	return nil
+	return g.genDocs(60 + n/200)
 }
 
 // Replay re-runs one recorded case on the implementation.
